@@ -99,11 +99,13 @@ e1("C14", "For every enumerated program and call, the value domain the call real
           "Programs cover every relational operator against non-random fields/expressions that wrap, go negative or mix signedness, field-vs-field "
           "chains, overlapping/unordered in-ranges, statements after nested conditionals, disabled blocks, enums (also declared in non-ascending order), and "
           "previous values left in the random fields. In addition the real swizzle-constraint builders are decided with a symbolic target over single- and "
-          "multi-range domains (the drawn target is forced; counterexamples replayed with the real Boolector) and RandState.randint is executed symbolically "
-          "(one integer draw over exactly the requested range, returned unchanged).",
+          "multi-range domains incl. single-value ranges (the drawn target is forced AND admitted; counterexamples replayed with the real Boolector), a dist under "
+          "if/else/implies over a random condition steers its field only while the condition holds (real per-call pipeline on public-API objects, symbolic "
+          "domain target), and RandState.randint is executed symbolically (one integer draw over exactly the requested range, returned unchanged).",
    "translation validation of the inferred bound map: z3 unsatisfiability of (reference AND value outside the inferred range)", "DESIGN.md section 6 C14")
 e1("C16", "Fault enumeration: user exceptions at every statement position of a constraint body during construction (also nested, in a dynamic "
-          "block, in __init__), at every position of a randomize_with body, in pre_/post_randomize (object and sub-object), and unsatisfiable calls, "
+          "block, in __init__), at every position of a randomize_with body, in pre_/post_randomize (object and sub-object), a call aborted while its inline constraints are expanded, "
+          "aborted covergroup constructors, and unsatisfiable calls, "
           "each followed by further use. After every operation the shared construction stacks and the object models are inspected (idle, no temporary "
           "rewrite, no solver node, no field left marked random) and every later call is decided by z3 for all random-field values against the "
           "reference (equivalent formula, failure iff unsatisfiable), i.e. it behaves as if the fault never happened.",
